@@ -27,7 +27,9 @@ theorem reach_step (p : PSt) (line : String) (h : Reachable p.gs) :
   split
   · exact .init
   · split
-    · exact reach_runG _ _ h
+    · split
+      · exact reach_runG _ _ h
+      · exact reach_runG _ _ h
     · exact reach_runG _ _ h
     · exact h
     · split
